@@ -4,6 +4,7 @@ import (
 	"encoding/hex"
 	"encoding/json"
 	"fmt"
+	"hash/fnv"
 	"sort"
 	"strconv"
 	"strings"
@@ -29,6 +30,11 @@ func AbsRID(rid string) string {
 				return fmt.Sprintf("%dq%d", n, k)
 			}
 		}
+	}
+	if len(rid) > 48 {
+		h := fnv.New32a()
+		h.Write([]byte(rid))
+		return fmt.Sprintf("xlong%dh%08x", len(rid), h.Sum32())
 	}
 	return "x" + hex.EncodeToString([]byte(rid))
 }
